@@ -669,6 +669,8 @@ def validated_call(app, environ, rec):
     try:
         result = app(environ, start_response)
     except BaseException as e:      # KeyboardInterrupt / SystemExit are let through by the framework
+        if type(e).__name__ == 'CaseTimeout':
+            raise                   # the check's own time limit (tools/check.py): never swallowed here
         escaped = type(e).__name__
     if escaped is None:
         if result is None:
@@ -687,7 +689,9 @@ def validated_call(app, environ, rec):
                         c = next(it)
                     except StopIteration:
                         break
-                    except BaseException:       # a later item may raise any class (the server's business)
+                    except BaseException as e:  # a later item may raise any class (the server's business)
+                        if type(e).__name__ == 'CaseTimeout':
+                            raise
                         raised = True
                         break
                     if state['calls'] == 0:
